@@ -15,7 +15,10 @@ import (
 	"github.com/ava-labs/avalanchego/utils"
 	"github.com/cockroachdb/pebble"
 	"github.com/cockroachdb/pebble/bloom"
+	"github.com/cockroachdb/pebble/vfs"
 	"github.com/prometheus/client_golang/prometheus"
+
+	"github.com/ava-labs/hypersdk/internal/verifhook"
 )
 
 var (
@@ -96,6 +99,10 @@ func New(dirName string, cfg Config, registerer prometheus.Registerer) (*Databas
 		return nil, err
 	}
 	d.metrics = metrics
+	if fs, ok := verifhook.FS(dirName).(vfs.FS); ok {
+		opts.FS = fs
+		opts.MemTableSize = 1 << 20
+	}
 	db, err := pebble.Open(dirName, opts)
 	if err != nil {
 		return nil, err
@@ -145,16 +152,25 @@ func (db *Database) Get(key []byte) ([]byte, error) {
 
 // Put sets the value of the provided key to the provided value
 func (db *Database) Put(key []byte, value []byte) error {
+	if err := verifhook.Fault("pebble.Put", string(key)); err != nil {
+		return err
+	}
 	return updateError(db.db.Set(key, value, pebble.Sync))
 }
 
 // Delete removes the key from the database
 func (db *Database) Delete(key []byte) error {
+	if err := verifhook.Fault("pebble.Delete", string(key)); err != nil {
+		return err
+	}
 	return updateError(db.db.Delete(key, pebble.Sync))
 }
 
 // DeleteRange deletes all the point keys (and values) in the range [start, end)
 func (db *Database) DeleteRange(start, end []byte) error {
+	if err := verifhook.Fault("pebble.DeleteRange", string(start)); err != nil {
+		return err
+	}
 	return updateError(db.db.DeleteRange(start, end, pebble.Sync))
 }
 
@@ -189,6 +205,9 @@ func (b *batch) Size() int { return b.size }
 
 // Write flushes any accumulated data to disk.
 func (b *batch) Write() error {
+	if err := verifhook.Fault("pebble.batch.Write", ""); err != nil {
+		return err
+	}
 	defer b.batch.Close()
 	return updateError(b.batch.Commit(pebble.Sync))
 }
